@@ -29,7 +29,13 @@ var outDir = flag.String("out", "", "output directory (lean/Wasp/Generated)")
 var failures []string
 
 func failf(format string, a ...interface{}) {
-	failures = append(failures, fmt.Sprintf(format, a...))
+	msg := fmt.Sprintf(format, a...)
+	for _, f := range failures {
+		if f == msg {
+			return // an expression that is translated twice is reported once
+		}
+	}
+	failures = append(failures, msg)
 }
 
 type parsed struct {
@@ -397,12 +403,28 @@ func main() {
 	})
 	// ---- literal (imperative) translations
 	idPoolLit := translateImperative("wasp/idpool.go", "Wasp.Generated.IdPoolLit", false, []impSpec{
-		{"simpleMidPool", "Get", "get", ""},
-		{"simpleMidPool", "Put", "put", ""},
+		{recvType: "simpleMidPool", goName: "Get", leanName: "get"},
+		{recvType: "simpleMidPool", goName: "Put", leanName: "put"},
 	})
 	bucketLit := translateImperative("wasp/expiration/bucket.go", "Wasp.Generated.BucketLit", true, []impSpec{
-		{"bucket", "put", "put", ""},
-		{"bucket", "delete", "delete", "len(b.data)"},
+		{recvType: "bucket", goName: "put", leanName: "put"},
+		{recvType: "bucket", goName: "delete", leanName: "delete", fuel: "len(b.data)"},
+	})
+	// the credential stores. fingerprintBytes (hex SHA-256, hash.go) stays abstract: a parameter of the
+	// definitions; fingerprintString is inlined from hash.go; randomID() only fills Principal.ID, which is
+	// left out. FileHandler is translated from `out := make(…)` on: the csv reading before it is outside
+	// the subset, its result `records` ([][]string, encoding/csv's ReadAll) is the input.
+	authLit := translateImperativeCfg(impConfig{
+		rel: "wasp/auth/file.go", namespace: "Wasp.Generated.AuthLit", ext: true,
+		externs:    []impExtern{{name: "fingerprintBytes"}, {name: "randomID", nondet: true}},
+		dropFields: []string{"Principal.ID"},
+	}, []impSpec{
+		{recvType: "fileHandler", goName: "Authenticate", leanName: "fileAuthenticate", fuel: "len(h.db)"},
+		{recvType: "staticHandler", goName: "Authenticate", leanName: "staticAuthenticate", file: "wasp/auth/static.go"},
+		{goName: "FileHandler", leanName: "fileHandlerLoad", fuel: "len(records)",
+			frag: &impFrag{inputs: []impField{{"records", "[][]string"}}, first: "out", results: []string{"fileHandler", "error"}}},
+		{goName: "StaticHandler", leanName: "staticHandlerNew", file: "wasp/auth/static.go",
+			frag: &impFrag{results: []string{"staticHandler", "error"}}},
 	})
 	// ---- facts
 	extractFacts()
@@ -434,6 +456,7 @@ func main() {
 	write("LockTable.lean", lt)
 	write("IdPoolLit.lean", idPoolLit)
 	write("BucketLit.lean", bucketLit)
+	write("AuthLit.lean", authLit)
 	fmt.Printf("extract ok: %d facts\n", len(facts))
 }
 
